@@ -308,6 +308,183 @@ static void one_call(const char* name, int form, const std::vector<W>& vals, W r
 
 static std::vector<vm_export> g_exports;
 
+// ---------------------------------------------------------------- callbacks with the same signatures (C12)
+// The guest calls the entry point it was given with guest-ABI values of every parameter kind;
+// the application callback records what it received and returns a scripted value.
+static std::vector<W> g_cbk_seen;
+static int g_cbk_count = 0;
+static W g_cbk_ret_host = 0;
+static std::vector<W> g_cbk_args_guest;
+static W g_cbk_ret_guest = 0;
+static bool g_cbk_trap = false;
+static uint32_t g_cbk_entry = 0;
+
+template<typename T>
+static W host_val(T v)
+{
+  if constexpr (std::is_pointer_v<T>) {
+    return v == nullptr ? -1 : (W)reinterpret_cast<uintptr_t>(v) - (W)BASE;
+  } else {
+    return guest_val(v);
+  }
+}
+template<typename R, typename... A>
+static std::conditional_t<std::is_void_v<R>, void, tainted<R, Sbx>> cbk(RS&, tainted<A, Sbx>... a)
+{
+  g_cbk_count++;
+  (g_cbk_seen.push_back(host_val(a.UNSAFE_unverified())), ...);
+  if constexpr (std::is_void_v<R>) {
+    return;
+  } else if constexpr (std::is_pointer_v<R>) {
+    if (g_cbk_ret_host < 0) {
+      return tainted<R, Sbx>(nullptr);
+    }
+    return sb->UNSAFE_accept_pointer(app_val<R>(g_cbk_ret_host));
+  } else {
+    return tainted<R, Sbx>(app_val<R>(g_cbk_ret_host));
+  }
+}
+template<typename GR, typename... GA, size_t... I>
+static void g_call_cbk_impl(std::index_sequence<I...>)
+{
+  if constexpr (std::is_void_v<GR>) {
+    g_cbk_trap = !Sbx::template call_indirect<void, GA...>(g_cbk_entry, (void*)nullptr, guest_from<GA>(g_cbk_args_guest[I])...);
+  } else {
+    GR r{};
+    g_cbk_trap = !Sbx::template call_indirect<GR, GA...>(g_cbk_entry, &r, guest_from<GA>(g_cbk_args_guest[I])...);
+    g_cbk_ret_guest = guest_val(r);
+  }
+}
+template<typename GR, typename... GA>
+static void g_call_cbk()
+{
+  g_call_cbk_impl<GR, GA...>(std::index_sequence_for<GA...>{});
+}
+template<typename T>
+constexpr bool is_fnp = std::is_pointer_v<T> && std::is_function_v<std::remove_pointer_t<T>>;
+
+// values a guest can pass for a parameter of application type T
+template<typename T>
+static std::vector<W> guest_candidates()
+{
+  std::vector<W> v;
+  if constexpr (std::is_pointer_v<T>) {
+    v = { 0, 8, 2048, 4095 }; // guest representations: 0 = null, else region offsets
+  } else if constexpr (std::is_floating_point_v<T>) {
+    v = candidates<T>();
+  } else {
+    int gb = GInfo<T>::bits;
+    W glo = GInfo<T>::sgn ? -((W)1 << (gb - 1)) : 0;
+    W ghi = GInfo<T>::sgn ? ((W)1 << (gb - 1)) - 1 : ((W)1 << gb) - 1;
+    for (W c : { (W)0, (W)1, (W)-1, (W)2, glo, ghi, glo + 1, ghi - 1, (W)0x5A }) {
+      if (c >= glo && c <= ghi) {
+        v.push_back(c);
+      }
+    }
+  }
+  return v;
+}
+
+template<typename R, typename... A>
+static void run_cb_sig(const char* name, std::mt19937_64& rng)
+{
+  if constexpr ((is_fnp<A> || ...) || is_fnp<R>) {
+    return; // callbacks taking or returning callbacks are not part of this family
+  } else {
+    constexpr size_t NA = sizeof...(A);
+    std::vector<std::vector<W>> cand = { guest_candidates<A>()... };
+    std::vector<W> rets = { 0 };
+    if constexpr (!std::is_void_v<R>) {
+      if constexpr (std::is_pointer_v<R>) {
+        rets = { -1, 8, 4092 }; // application values: null / region offsets
+      } else if constexpr (std::is_floating_point_v<R>) {
+        rets = { guest_val((R)0), guest_val((R)-1.75) };
+      } else {
+        int gb = GInfo<R>::bits;
+        W glo = GInfo<R>::sgn ? -((W)1 << (gb - 1)) : 0;
+        W ghi = GInfo<R>::sgn ? ((W)1 << (gb - 1)) - 1 : ((W)1 << gb) - 1;
+        W hlo = (W)std::numeric_limits<R>::min(), hhi = (W)std::numeric_limits<R>::max();
+        for (W c : { (W)0, (W)1, glo, ghi, ghi + 1, glo - 1, hhi, hlo }) {
+          if (c >= hlo && c <= hhi) {
+            rets.push_back(c);
+          }
+        }
+      }
+    }
+    auto cb = sb->register_callback(cbk<R, A...>);
+    g_cbk_entry = (uint32_t)cb.UNSAFE_sandboxed(*sb);
+    std::string callee = std::string("cbk_") + name;
+    size_t nret = 0;
+    auto one = [&](const std::vector<W>& vals) {
+      g_cbk_seen.clear();
+      g_cbk_count = 0;
+      g_cbk_args_guest = vals;
+      g_cbk_ret_host = rets[nret++ % rets.size()];
+      g_cbk_ret_guest = 0;
+      g_cbk_trap = false;
+      g_abort_flag = false;
+      sb->template INTERNAL_invoke_with_func_name<void()>(callee.c_str());
+      tr::Ev e("cbcall");
+      e.str("sig", name).str("out", g_abort_flag ? "abort" : "ok").num("count", g_cbk_count).boolean("trap", g_cbk_trap);
+      std::string args = "[";
+      size_t i = 0;
+      auto add = [&](auto tag) {
+        using T = typename decltype(tag)::type;
+        tr::Ev a("x");
+        a.s = "{";
+        a.first = true;
+        a.str("cls", std::string(1, GInfo<T>::cls)).num("gbits", GInfo<T>::bits).boolean("gs", GInfo<T>::sgn).wide("v", vals[i]);
+        if (i < g_cbk_seen.size()) {
+          a.wide("seen", g_cbk_seen[i]);
+        }
+        args += std::string(i ? "," : "") + a.s + "}";
+        i++;
+      };
+      (add(std::common_type<A>{}), ...);
+      e.raw("args", args + "]");
+      if constexpr (!std::is_void_v<R>) {
+        e.raw("ret", std::string("{\"cls\":\"") + GInfo<R>::cls + "\",\"gbits\":" + std::to_string(GInfo<R>::bits) +
+                       ",\"gs\":" + (GInfo<R>::sgn ? "true" : "false") + "}");
+        e.wide("ret_host", g_cbk_ret_host).wide("ret_guest", g_cbk_ret_guest);
+      } else {
+        e.raw("ret", "{\"cls\":\"v\",\"gbits\":0,\"gs\":false}").wide("ret_host", 0).wide("ret_guest", 0);
+      }
+      out.put(e);
+    };
+    std::vector<W> base(NA, 0);
+    for (size_t i = 0; i < NA; i++) {
+      base[i] = cand[i][0];
+    }
+    for (size_t k = 0; k < rets.size(); k++) {
+      one(base);
+    }
+    for (size_t i = 0; i < NA; i++) {
+      for (W c : cand[i]) {
+        std::vector<W> v = base;
+        v[i] = c;
+        one(v);
+      }
+    }
+    for (int k = 0; k < 6 && NA > 0; k++) {
+      std::vector<W> v(NA);
+      for (size_t i = 0; i < NA; i++) {
+        v[i] = cand[i][rng() % cand[i].size()];
+      }
+      one(v);
+    }
+    cb.unregister();
+  }
+}
+template<typename R, typename... A>
+static void reg_cb_sig(const char* name)
+{
+  if constexpr (!((is_fnp<A> || ...) || is_fnp<R>)) {
+    static std::string n = std::string("cbk_") + name;
+    g_exports.push_back({ n.c_str(), (void*)&g_call_cbk<detail::convert_to_sandbox_equivalent_t<R, Sbx>,
+                                                         detail::convert_to_sandbox_equivalent_t<A, Sbx>...> });
+  }
+}
+
 template<typename R, typename... A>
 static void run_sig(const char* name, std::mt19937_64& rng)
 {
@@ -386,6 +563,8 @@ int main(int argc, char** argv)
   std::mt19937_64 rng(std::atoll(argv[2]));
 #define REG(name, ...) reg_sig<__VA_ARGS__>(#name);
   SIGS(REG)
+#define REGCB(name, ...) reg_cb_sig<__VA_ARGS__>(#name);
+  SIGS(REGCB)
   static vm_library lib = { 1, g_exports };
   RS sandbox;
   sandbox.create_sandbox(&lib);
@@ -402,6 +581,8 @@ int main(int argc, char** argv)
 #define RUN(name, ...) run_sig<__VA_ARGS__>(#name, rng);
   SIGS(RUN)
   cb.unregister();
+#define RUNCB(name, ...) run_cb_sig<__VA_ARGS__>(#name, rng);
+  SIGS(RUNCB)
   sandbox.destroy_sandbox();
   out.close();
   return 0;
